@@ -1717,3 +1717,283 @@ Example v2c_ex_run :
   | None => false
   end = true.
 Proof. vm_compute. reflexivity. Qed.
+
+(* ================================================================================================ *)
+(* Part 6: a store that fails part-way (v2).  The store is the list of its writes in program order    *)
+(* (v2_store_writes); what a write error / a kill leaves behind is a prefix of that list, the append   *)
+(* possibly cut short.  Every such state satisfies the index part of the invariant (v2_WInv: v2_Inv     *)
+(* without the two header fields, which a failed store leaves behind) and every address returns its     *)
+(* previous tile or the complete new one.  This is what makes the ORDER record -> index entry -> header  *)
+(* a theorem: with the index entry first the statement is false.                                        *)
+
+Lemma sum_on_update' {St} (rec : St -> slot -> option (Z * list Z)) st st' ss s :
+  NoDup ss -> In s ss -> (forall s', In s' ss -> s' <> s -> rec st' s' = rec st s') ->
+  g_live_sum_on St rec st' ss = g_live_sum_on St rec st ss - rec_len (rec st s) + rec_len (rec st' s).
+Proof.
+  induction 1 as [|a ss Ha Hnd IH]; intros Hin H; [contradiction|].
+  change (g_live_sum_on St rec st' (a :: ss)) with (rec_len (rec st' a) + g_live_sum_on St rec st' ss).
+  change (g_live_sum_on St rec st (a :: ss)) with (rec_len (rec st a) + g_live_sum_on St rec st ss).
+  destruct Hin as [->|Hin].
+  - rewrite (sum_on_ext St rec st st' ss); [lia|]. intros s' Hs'. apply H; [now right|]. intros ->. contradiction.
+  - rewrite IH; [|exact Hin|intros; apply H; [now right|assumption]].
+    rewrite (H a); [lia|now left|]. intros ->. contradiction.
+Qed.
+
+Lemma v2_Inv_weak f : v2_Inv f -> v2_WInv f.
+Proof. intros [G [Hb [_ Hr]]]. split; [exact G|]. split; [exact Hb|]. intros s a d Hs H. now destruct (Hr s a d Hs H). Qed.
+
+Lemma v2_load_rec_w f s : v2_WInv f -> slot_ok s ->
+  v2_load f s = match v2_rec f s with Some (_, d) => RData d | None => RMissing end.
+Proof.
+  intros [[G1 [G2 _]] [Hb _]] Hs. destruct (v2_idx_range s Hs) as [I1 [I2 _]].
+  unfold v2_load, v2_tile_offset_size. rewrite v2_entry_bytes_spec. rewrite brdnum_some by (change (Z.of_nat 8) with 8; lia).
+  specialize (G2 s). unfold v2_rec in *. rewrite v2_entry_size_spec, v2_entry_offset_spec.
+  set (val := brd f (v2_idx s) 8) in *. destruct (val / two40 =? 0) eqn:E; [cbn; reflexivity|].
+  rewrite E.
+  pose proof (brd_bound f (v2_idx s) 8 Hb) as Hv. rewrite pow8 in Hv. fold val in Hv.
+  assert (Hsz : 0 < val / two40) by (unfold two40 in *; lia).
+  destruct (G2 _ _ Hs eq_refl) as [Ha [Hbnd _]]. rewrite zlen_bread in Hbnd.
+  replace (val - val / two40 * two40) with (val mod two40) by (unfold two40; lia).
+  rewrite breadz_full by lia. reflexivity.
+Qed.
+
+(* a change of the file that leaves everything between offset 32 and the old end alone (an append, a header
+   write) changes no record and keeps the weak invariant *)
+Lemma v2_frame_w f g : v2_WInv f -> blen f <= blen g -> bytes_ok g ->
+  (forall o n, 32 <= o -> o + Z.of_nat n <= blen f -> bread g o n = bread f o n) ->
+  v2_WInv g /\ forall s, slot_ok s -> v2_rec g s = v2_rec f s.
+Proof.
+  intros [[G1 [G2 [G3 G4]]] [Hb Hr]] Hl Hbg F. assert (HB2 : B2 = 131136) by reflexivity.
+  assert (Hrec : forall s, slot_ok s -> v2_rec g s = v2_rec f s).
+  { intros s Hs. destruct (v2_idx_range s Hs) as [I1 [I2 _]]. specialize (G2 s). unfold v2_rec in *.
+    assert (Ev : brd g (v2_idx s) 8 = brd f (v2_idx s) 8) by (unfold brd; rewrite F by (change (Z.of_nat 8) with 8; lia); reflexivity).
+    rewrite Ev. set (v := brd f (v2_idx s) 8) in *. destruct (v / two40 =? 0) eqn:E0; [reflexivity|].
+    destruct (G2 _ _ Hs eq_refl) as [Ha [Hbnd _]]. rewrite zlen_bread in Hbnd.
+    pose proof (brd_bound f (v2_idx s) 8 Hb) as Hv. rewrite pow8 in Hv. fold v in Hv.
+    assert (0 < v / two40) by (unfold two40 in *; lia). f_equal. f_equal. apply F; lia. }
+  split; [|exact Hrec]. split; [|split; [exact Hbg|]].
+  - unfold GInv. split; [lia|]. split; [|split].
+    + intros s a d Hs H. rewrite Hrec in H by assumption. destruct (G2 s a d Hs H) as [? [? [? ?]]]. repeat split; auto; lia.
+    + intros s s' a d a' d' Hs Hs' Hne H H'. rewrite Hrec in H, H' by assumption. exact (G3 s s' a d a' d' Hs Hs' Hne H H').
+    + unfold g_live_sum in *. rewrite (sum_on_ext bfile v2_rec f g all_slots); [lia|].
+      intros s Hs. apply Hrec. now apply in_all_slots.
+  - intros s a d Hs H. rewrite Hrec in H by assumption. rewrite <- (Hr s a d Hs H).
+    destruct (G2 s a d Hs H) as [Ha [Hbnd _]]. pose proof (zlen_nonneg d). unfold brd. rewrite F; [reflexivity|lia|change (Z.of_nat 4) with 4; lia].
+Qed.
+
+Lemma v2_append_w f t : v2_WInv f -> bytes_okl t ->
+  v2_WInv (bwrite f (blen f) t) /\ forall s, slot_ok s -> v2_rec (bwrite f (blen f) t) s = v2_rec f s.
+Proof.
+  intros HW Ht. pose proof (zlen_nonneg t). assert (G1 : B2 <= blen f) by (destruct HW as [[G1 _] _]; exact G1).
+  assert (HB2 : B2 = 131136) by reflexivity.
+  apply v2_frame_w; [exact HW|rewrite blen_bwrite; lia| |].
+  - apply bytes_ok_bwrite; [destruct HW as [_ [Hb _]]; exact Hb|exact Ht|lia].
+  - intros o n Ho Hn. apply bread_bwrite_out; lia.
+Qed.
+
+Lemma v2_header_w f o t : v2_WInv f -> bytes_okl t -> 0 <= o -> o + zlen t <= 32 ->
+  v2_WInv (bwrite f o t) /\ forall s, slot_ok s -> v2_rec (bwrite f o t) s = v2_rec f s.
+Proof.
+  intros HW Ht Ho Hn. pose proof (zlen_nonneg t). assert (G1 : B2 <= blen f) by (destruct HW as [[G1 _] _]; exact G1).
+  assert (HB2 : B2 = 131136) by reflexivity.
+  apply v2_frame_w; [exact HW|rewrite blen_bwrite; lia| |].
+  - apply bytes_ok_bwrite; [destruct HW as [_ [Hb _]]; exact Hb|exact Ht|lia].
+  - intros o' n Ho' Hn'. apply bread_bwrite_out; lia.
+Qed.
+
+(* the index entry is written when the complete record is at the end of the file *)
+Lemma v2_entry_w g s d e :
+  v2_WInv g -> slot_ok s -> bytes_okl d -> zlen d < two24 -> e + 4 + zlen d < two40 ->
+  blen g = e + 4 + zlen d -> brd g e 4 = zlen d -> bread g (e + 4) (length d) = d ->
+  B2 <= e -> B2 + g_live_sum bfile v2_rec g <= e ->
+  (forall s' a d', slot_ok s' -> v2_rec g s' = Some (a, d') -> a + 4 + zlen d' <= e) ->
+  let g' := bwrite g (v2_idx s) (le 8 (v2_entry_encode (e + 4) (zlen d))) in
+  v2_WInv g' /\ v2_rec g' s = (if zlen d =? 0 then None else Some (e, d)) /\
+  forall s', slot_ok s' -> s' <> s -> v2_rec g' s' = v2_rec g s'.
+Proof.
+  intros [[G1 [G2 [G3 G4]]] [Hb Hr]] Hs Hd Hm Hg Hl Hsz Hdat He Hsum Hbelow. cbv zeta. rewrite v2_entry_encode_spec.
+  pose proof (zlen_nonneg d) as Hz. destruct (v2_idx_range s Hs) as [I1 [I2 _]]. assert (HB2 : B2 = 131136) by reflexivity.
+  set (size := zlen d) in *.
+  destruct (v2_decode (e + 4) size) as [D1 [D2 D3]]; [unfold two40 in *; lia|lia|].
+  set (val := e + 4 + size * two40) in *. set (g' := bwrite g (v2_idx s) (le 8 val)).
+  assert (L : blen g' = blen g) by (unfold g'; rewrite blen_bwrite, zlen_le; lia).
+  assert (F : forall o n, o + Z.of_nat n <= v2_idx s \/ v2_idx s + 8 <= o -> bread g' o n = bread g o n).
+  { intros o n H. unfold g'. apply bread_bwrite_out; [lia|rewrite zlen_le; lia]. }
+  assert (Hent : brd g' (v2_idx s) 8 = val) by (unfold g'; apply brd_bwrite_same; [lia|rewrite pow8; lia]).
+  assert (Hself : v2_rec g' s = (if size =? 0 then None else Some (e, d))).
+  { unfold v2_rec. rewrite Hent, D1, D2. destruct (size =? 0) eqn:Es; [reflexivity|].
+    replace (e + 4 - 4) with e by lia. f_equal. f_equal.
+    replace (Z.to_nat size) with (length d) by (unfold size, zlen; lia). rewrite F by lia. exact Hdat. }
+  assert (Hother : forall s', slot_ok s' -> s' <> s -> v2_rec g' s' = v2_rec g s').
+  { intros s' Hs' Hne. destruct (v2_idx_range s' Hs') as [J1 [J2 _]].
+    pose proof (v2_idx_disj s s' Hs Hs' (fun H => Hne (eq_sym H))) as Hdis.
+    specialize (G2 s'). unfold v2_rec in *.
+    assert (Ev : brd g' (v2_idx s') 8 = brd g (v2_idx s') 8) by (unfold brd; rewrite F by (change (Z.of_nat 8) with 8; lia); reflexivity).
+    rewrite Ev. set (v' := brd g (v2_idx s') 8) in *. destruct (v' / two40 =? 0) eqn:E0; [reflexivity|].
+    destruct (G2 _ _ Hs' eq_refl) as [Ha [Hbnd _]]. f_equal. f_equal. apply F. lia. }
+  split; [|split; [exact Hself|exact Hother]].
+  split; [|split].
+  - unfold GInv. rewrite L. split; [lia|]. split; [|split].
+    + intros s0 a d0 Hs0 H. destruct (slot_eq_dec s0 s) as [->|Hne].
+      * rewrite Hself in H. destruct (size =? 0) eqn:Es; [discriminate|]. inversion H; subst a d0. repeat split; auto; lia.
+      * rewrite Hother in H by assumption. exact (G2 s0 a d0 Hs0 H).
+    + intros s1 s2 a1 d1 a2 d2 Hs1 Hs2 Hne R1 R2.
+      destruct (slot_eq_dec s1 s) as [->|N1]; destruct (slot_eq_dec s2 s) as [->|N2]; try congruence.
+      * rewrite Hself in R1. destruct (size =? 0); [discriminate|]. inversion R1; subst.
+        rewrite Hother in R2 by assumption. pose proof (Hbelow s2 a2 d2 Hs2 R2). lia.
+      * rewrite Hself in R2. destruct (size =? 0); [discriminate|]. inversion R2; subst.
+        rewrite Hother in R1 by assumption. pose proof (Hbelow s1 a1 d1 Hs1 R1). lia.
+      * rewrite Hother in R1, R2 by assumption. exact (G3 s1 s2 a1 d1 a2 d2 Hs1 Hs2 Hne R1 R2).
+    + unfold g_live_sum in *. rewrite (sum_on_update' v2_rec g g' all_slots s).
+      * rewrite Hself. assert (0 <= rec_len (v2_rec g s)) by (destruct (v2_rec g s) as [[? dd]|]; cbn [rec_len]; [pose proof (zlen_nonneg dd)|]; lia).
+        destruct (size =? 0); cbn [rec_len]; fold size; lia.
+      * apply NoDup_all_slots.
+      * now apply in_all_slots.
+      * intros s' Hs' Hne. apply Hother; [now apply in_all_slots|exact Hne].
+  - unfold g'. apply bytes_ok_bwrite; [assumption|apply le_bytes|lia].
+  - intros s0 a d0 Hs0 H. destruct (slot_eq_dec s0 s) as [->|Hne].
+    + rewrite Hself in H. destruct (size =? 0) eqn:Es; [discriminate|]. inversion H; subst a d0.
+      unfold brd. rewrite F by (change (Z.of_nat 4) with 4; lia). exact Hsz.
+    + rewrite Hother in H by assumption. rewrite <- (Hr s0 a d0 Hs0 H). destruct (G2 s0 a d0 Hs0 H) as [Ha _].
+      unfold brd. rewrite F; [reflexivity|change (Z.of_nat 4) with 4; lia].
+Qed.
+
+Definition v2_view (r : option (Z * list Z)) : rres := match r with Some (_, d) => RData d | None => RMissing end.
+
+Lemma v2_store_states f s d :
+  v2_WInv f -> slot_ok s -> bytes_okl d -> zlen d < two24 -> blen f + 4 + zlen d < two40 ->
+  let e := blen f in
+  let g1 := bwrite f e (le 4 (zlen d)) in
+  let g2 := bwrite g1 (e + 4) d in
+  let g3 := bwrite g2 (v2_idx s) (le 8 (v2_entry_encode (e + 4) (zlen d))) in
+  (v2_WInv g1 /\ forall s', slot_ok s' -> v2_rec g1 s' = v2_rec f s') /\
+  (v2_WInv g2 /\ forall s', slot_ok s' -> v2_rec g2 s' = v2_rec f s') /\
+  (v2_WInv g3 /\ v2_rec g3 s = (if zlen d =? 0 then None else Some (e, d)) /\
+   forall s', slot_ok s' -> s' <> s -> v2_rec g3 s' = v2_rec f s') /\
+  brd g3 8 4 = brd f 8 4 /\ blen g3 = e + 4 + zlen d.
+Proof.
+  intros HW Hs Hd Hm Hg e g1 g2 g3. pose proof (zlen_nonneg d) as Hz.
+  assert (HB2 : B2 = 131136) by reflexivity. destruct (v2_idx_range s Hs) as [I1 [I2 _]].
+  assert (G1 : B2 <= e) by (destruct HW as [[G1 _] _]; exact G1).
+  assert (T32 : two24 = 16777216) by reflexivity.
+  destruct (v2_append_w f (le 4 (zlen d)) HW (le_bytes _ _)) as [W1 R1]. fold e in W1, R1. fold g1 in W1, R1.
+  assert (L1 : blen g1 = e + 4) by (unfold g1; rewrite blen_bwrite, zlen_le; fold e; lia).
+  destruct (v2_append_w g1 d W1 Hd) as [W2 R2]. rewrite L1 in W2, R2. fold g2 in W2, R2.
+  assert (L2 : blen g2 = e + 4 + zlen d) by (unfold g2; rewrite blen_bwrite, L1; lia).
+  assert (R2' : forall s', slot_ok s' -> v2_rec g2 s' = v2_rec f s') by (intros; rewrite R2, R1; auto).
+  assert (Hsz : brd g2 e 4 = zlen d).
+  { unfold g2. rewrite brd_bwrite_out by (change (Z.of_nat 4) with 4; lia). unfold g1.
+    apply brd_bwrite_same; [fold e; lia|rewrite pow4; unfold two32; lia]. }
+  assert (Hdat : bread g2 (e + 4) (length d) = d) by (unfold g2; apply bread_bwrite_same; lia).
+  assert (Hsum : B2 + g_live_sum bfile v2_rec g2 <= e).
+  { unfold g_live_sum. rewrite (sum_on_ext bfile v2_rec f g2 all_slots) by (intros s' Hs'; apply R2'; now apply in_all_slots).
+    destruct HW as [[_ [_ [_ G4]]] _]. exact G4. }
+  assert (Hbelow : forall s' a d', slot_ok s' -> v2_rec g2 s' = Some (a, d') -> a + 4 + zlen d' <= e).
+  { intros s' a d' Hs' H. rewrite R2' in H by assumption. destruct HW as [[_ [G2 _]] _]. now destruct (G2 s' a d' Hs' H) as [_ [? _]]. }
+  destruct (v2_entry_w g2 s d e W2 Hs Hd Hm Hg L2 Hsz Hdat G1 Hsum Hbelow) as [W3 [R3 O3]]. fold g3 in W3, R3, O3.
+  split; [split; assumption|]. split; [split; assumption|]. split; [|split].
+  - split; [exact W3|]. split; [exact R3|]. intros s' Hs' Hne. rewrite O3 by assumption. now apply R2'.
+  - unfold g3. rewrite brd_bwrite_out by (rewrite ?zlen_le; change (Z.of_nat 4) with 4; lia).
+    unfold g2. rewrite brd_bwrite_out by (change (Z.of_nat 4) with 4; lia).
+    unfold g1. rewrite brd_bwrite_out by (rewrite ?zlen_le; change (Z.of_nat 4) with 4; fold e; lia). reflexivity.
+  - unfold g3. rewrite blen_bwrite, zlen_le, L2. lia.
+Qed.
+
+(* the model's store IS the list of writes *)
+Theorem v2_store1_is_writes f s d :
+  v2_WInv f -> slot_ok s -> bytes_okl d -> zlen d < two24 -> blen f + 4 + zlen d < two40 ->
+  v2_store1 f s d = Some (apply_writes f (v2_store_writes f s d)).
+Proof.
+  intros HW Hs Hd Hm Hg. destruct (v2_store_states f s d HW Hs Hd Hm Hg) as [_ [_ [_ [H8 L3]]]]. cbv zeta in H8, L3.
+  pose proof (zlen_nonneg d). assert (G1 : B2 <= blen f) by (destruct HW as [[G1 _] _]; exact G1). assert (HB2 : B2 = 131136) by reflexivity.
+  unfold v2_store1, v2_store_writes. cbv zeta.
+  destruct (two32 <=? zlen d) eqn:E32; [unfold two32, two24 in *; lia|].
+  destruct (v2_decode (blen f + 4) (zlen d)) as [_ [_ D3]]; [unfold two40 in *; lia|lia|].
+  rewrite v2_entry_encode_spec in *.
+  destruct (two64 <=? blen f + 4 + zlen d * two40) eqn:E64; [lia|].
+  rewrite brdnum_some by (rewrite L3; change (Z.of_nat 4) with 4; lia). rewrite H8.
+  destruct (brd f 8 4 <? zlen d); reflexivity.
+Qed.
+
+(* every prefix of the writes of a store leaves a bundle whose index is valid, and every address returns its
+   previous tile or (the stored address, once the index entry is written) the complete new one *)
+Theorem v2_store_prefix_ok f s d k :
+  v2_WInv f -> slot_ok s -> bytes_okl d -> zlen d < two24 -> blen f + 4 + zlen d < two40 ->
+  let g := apply_writes f (firstn k (v2_store_writes f s d)) in
+  v2_WInv g /\
+  forall s', slot_ok s' ->
+    v2_load g s' = v2_load f s' \/ (s' = s /\ v2_load g s' = (if zlen d =? 0 then RMissing else RData d)).
+Proof.
+  intros HW Hs Hd Hm Hg. destruct (v2_store_states f s d HW Hs Hd Hm Hg) as [[W1 R1] [[W2 R2] [[W3 [R3 O3]] [H8 L3]]]].
+  cbv zeta in *. pose proof (zlen_nonneg d).
+  assert (same : forall g, v2_WInv g -> (forall s', slot_ok s' -> v2_rec g s' = v2_rec f s') ->
+            v2_WInv g /\ forall s', slot_ok s' -> v2_load g s' = v2_load f s' \/
+               (s' = s /\ v2_load g s' = (if zlen d =? 0 then RMissing else RData d))).
+  { intros g Wg Rg. split; [exact Wg|]. intros s' Hs'. left. rewrite !v2_load_rec_w by assumption. now rewrite Rg. }
+  assert (newst : forall g, v2_WInv g -> (forall s', slot_ok s' -> v2_rec g s' = v2_rec
+     (bwrite (bwrite (bwrite f (blen f) (le 4 (zlen d))) (blen f + 4) d) (v2_idx s) (le 8 (v2_entry_encode (blen f + 4) (zlen d)))) s') ->
+            v2_WInv g /\ forall s', slot_ok s' -> v2_load g s' = v2_load f s' \/
+               (s' = s /\ v2_load g s' = (if zlen d =? 0 then RMissing else RData d))).
+  { intros g Wg Rg. split; [exact Wg|]. intros s' Hs'. rewrite !v2_load_rec_w by assumption. rewrite Rg by assumption.
+    destruct (slot_eq_dec s' s) as [->|Hne].
+    - right. split; [reflexivity|]. rewrite R3. destruct (zlen d =? 0); reflexivity.
+    - left. now rewrite O3. }
+  unfold v2_store_writes. cbv zeta.
+  set (g3 := bwrite (bwrite (bwrite f (blen f) (le 4 (zlen d))) (blen f + 4) d) (v2_idx s) (le 8 (v2_entry_encode (blen f + 4) (zlen d)))) in *.
+  assert (T24 : two24 = 16777216) by reflexivity. assert (T40 : two40 = 1099511627776) by reflexivity.
+  assert (H4 : forall g, v2_WInv g -> (forall s', slot_ok s' -> v2_rec g s' = v2_rec g3 s') ->
+     v2_WInv (bwrite g 8 (le 4 (zlen d))) /\ forall s', slot_ok s' -> v2_rec (bwrite g 8 (le 4 (zlen d))) s' = v2_rec g3 s').
+  { intros g Wg Rg. destruct (v2_header_w g 8 (le 4 (zlen d)) Wg (le_bytes _ _)) as [W R]; [lia|rewrite zlen_le; lia|].
+    split; [exact W|]. intros. rewrite R by assumption. now apply Rg. }
+  assert (H5 : forall g, v2_WInv g -> (forall s', slot_ok s' -> v2_rec g s' = v2_rec g3 s') ->
+     v2_WInv (bwrite g 24 (le 8 (blen f + 4 + zlen d))) /\ forall s', slot_ok s' -> v2_rec (bwrite g 24 (le 8 (blen f + 4 + zlen d))) s' = v2_rec g3 s').
+  { intros g Wg Rg. destruct (v2_header_w g 24 (le 8 (blen f + 4 + zlen d)) Wg (le_bytes _ _)) as [W R]; [lia|rewrite zlen_le; lia|].
+    split; [exact W|]. intros. rewrite R by assumption. now apply Rg. }
+  destruct (brd f 8 4 <? zlen d); cbn [app];
+  destruct k as [|[|[|[|[|k]]]]]; cbn [firstn apply_writes fold_left fst snd]; try solve [apply same; [assumption|assumption]]; try solve [apply same; [exact HW|reflexivity]]; try solve [apply newst; [assumption|intros; reflexivity]].
+  - destruct (H4 g3 W3 (fun _ _ => eq_refl)) as [W4 R4]. apply newst; assumption.
+  - rewrite ?firstn_nil. cbn [fold_left fst snd].
+    destruct (H4 g3 W3 (fun _ _ => eq_refl)) as [W4 R4]. destruct (H5 _ W4 R4) as [W5 R5]. apply newst; assumption.
+  - rewrite ?firstn_nil. cbn [fold_left fst snd]. destruct (H5 g3 W3 (fun _ _ => eq_refl)) as [W5 R5]. apply newst; assumption.
+  - rewrite ?firstn_nil. cbn [fold_left fst snd]. destruct (H5 g3 W3 (fun _ _ => eq_refl)) as [W5 R5]. apply newst; assumption.
+Qed.
+
+(* the appended bytes cut short at any point (a full disk, a kill in the middle of write(2)): nothing changes for
+   any address *)
+Theorem v2_torn_append_ok f t :
+  v2_WInv f -> bytes_okl t ->
+  v2_WInv (bwrite f (blen f) t) /\ forall s, slot_ok s -> v2_load (bwrite f (blen f) t) s = v2_load f s.
+Proof.
+  intros HW Ht. destruct (v2_append_w f t HW Ht) as [W R]. split; [exact W|].
+  intros s Hs. rewrite !v2_load_rec_w by assumption. now rewrite R.
+Qed.
+
+(* the order matters: with the index entry written before the record (what seeded mutant C19-n1 does) the state
+   after that first write is NOT valid - the entry of slot (0,0) points behind the end of the file *)
+Theorem v2_entry_first_refuted :
+  exists f s d, v2_Inv f /\ slot_ok s /\ bytes_okl d /\ zlen d < two24 /\ blen f + 4 + zlen d < two40 /\
+    ~ v2_WInv (bwrite f (v2_idx s) (le 8 (v2_entry_encode (blen f + 4) (zlen d)))).
+Proof.
+  exists v2_init, (0, 0), [7]. splits.
+  - exact v2_inv_init.
+  - unfold slot_ok; cbn; lia.
+  - repeat constructor; lia.
+  - vm_compute; reflexivity.
+  - vm_compute; reflexivity.
+  - intros [[_ [G2 _]] _].
+    assert (Hs : slot_ok (0, 0)) by (unfold slot_ok; cbn; lia).
+    assert (E : v2_rec (bwrite v2_init (v2_idx (0, 0)) (le 8 (v2_entry_encode (blen v2_init + 4) (zlen [7])))) (0, 0) = Some (131136, [0]))
+      by (vm_compute; reflexivity).
+    destruct (G2 (0, 0) 131136 [0] Hs E) as [_ [Hb _]]. vm_compute in Hb. apply Hb. reflexivity.
+Qed.
+
+(* the full store keeps the weak invariant too, so histories with failed stores in between stay valid *)
+Theorem v2_store_w f s d :
+  v2_WInv f -> slot_ok s -> bytes_okl d -> zlen d < two24 -> blen f + 4 + zlen d < two40 ->
+  exists f', v2_store1 f s d = Some f' /\ v2_WInv f' /\
+    forall s', slot_ok s' -> v2_load f' s' = v2_load f s' \/ (s' = s /\ v2_load f' s' = (if zlen d =? 0 then RMissing else RData d)).
+Proof.
+  intros HW Hs Hd Hm Hg. rewrite (v2_store1_is_writes f s d HW Hs Hd Hm Hg). eexists. split; [reflexivity|].
+  pose proof (v2_store_prefix_ok f s d (length (v2_store_writes f s d)) HW Hs Hd Hm Hg) as H. cbv zeta in H.
+  now rewrite firstn_all in H.
+Qed.
